@@ -22,7 +22,7 @@ CLANG_BASE = ['clang++-14', '-std=c++20', os.environ.get('VF_OPT', '-O1'), '-fno
               '-fno-builtin', '-fno-pic', '-nostdinc++', '-isystem', os.path.join(V, 'vstl'), '-I', os.path.join(V, 'rt'), '-I', os.path.join(V, 'shadow'),
               '-I', os.path.join(V, 'harness', 'common'), '-I', os.path.join(V, 'env'), '-I', SRC, '-DMESON_BUILD', '-D_FILE_OFFSET_BITS=64',
               '-DVF_MODEL=1', '-D__NO_INLINE__', '-Wno-everything', '-c', '-emit-llvm']
-CBMC_FLAGS = ['--unwinding-assertions', '--signed-overflow-check', '--undefined-shift-check', '--drop-unused-functions',
+CBMC_FLAGS = ['--verbosity', '8', '--unwinding-assertions', '--signed-overflow-check', '--undefined-shift-check', '--drop-unused-functions',
               '--no-malloc-may-fail', '--json-ui', '--no-standard-checks', '--pointer-check', '--bounds-check', '--div-by-zero-check',
               '--pointer-primitive-check']
 REAL_FLAGS = ['-std=c++20', '-O1', '-g', '-fno-omit-frame-pointer', '-fsanitize=address,undefined', '-fno-sanitize-recover=undefined',
@@ -305,7 +305,7 @@ class Job:
         m = re.search(r'Generated (\d+) VCC\(s\), (\d+) remaining', alltext)
         if m:
             self.res['vccs'], self.res['vccs_remaining'] = int(m.group(1)), int(m.group(2))
-        ts = re.findall(r'Runtime (?:Solver|decision procedure): ([0-9.]+)s', alltext)
+        ts = re.findall(r'Runtime decision procedure: ([0-9.]+)s', alltext)   # (one per solver query; includes the SAT solver time)
         self.res['solver_s'] = round(sum(float(x) for x in ts), 2)
         self.res['solver_queries'] = len(ts)
         return results
